@@ -21,9 +21,10 @@ from "identical `Schema`".  This file proves the per-construct agreement facts, 
   same root objects under the same name table; and default root names are what the SDL path falls
   back to.
 
-`frontends_equal_partial` (whole-schema equality for arbitrary abstract schemas) is **not** proved
-here; that statement is covered by the correspondence run only (every rendering of every generated
-schema must give the same token string, and the Lean front-ends must reproduce it).
+Whole-schema equality for arbitrary abstract schemas (`frontends_equal`, `frontends_equal_json`) is proved in
+`Proofs/C07Frontends.lean`, the permutation statement (`codegen_iso_perm`) in `Proofs/C07PermCodegenE.lean`; this file
+keeps the component theorems. The correspondence run checks the same on the implementation (every rendering of every
+generated schema must give the same token string, and the Lean front-ends must reproduce it).
 -/
 namespace GqlVerif
 namespace C07
